@@ -135,6 +135,13 @@ class Impl:
                         getattr(self.cfg, spelling)
                     except Exception:
                         pass
+            for n, v in (case.get('assign_first') or []):
+                # ... and given values under the application's own spelling (what launch() writes into the torrc); once attached,
+                # the view is Tor's configuration
+                try:
+                    setattr(self.cfg, (case.get('reads_as') or {}).get(n, n), list(v) if isinstance(v, list) else v)
+                except Exception:
+                    pass
             self.cfg.attach_protocol(self.st.proto)
         else:
             self.cfg = TorConfig(self.st.proto)
@@ -156,7 +163,8 @@ class Impl:
         outs = []
         for line in new:
             rest = line.split(' ', 1)[1] if ' ' in line else ''
-            outs.append(['setconf', [[k, '' if v is None else v] for k, v in kv_parse(rest)]])
+            # (Tor reads option names case-insensitively: a key is compared under Tor's own spelling)
+            outs.append(['setconf', [[self.tab.real(k), '' if v is None else v] for k, v in kv_parse(rest)]])
         outs += self.log
         self.log = []
         reads = {}
